@@ -638,6 +638,19 @@ func (e *Exec) equalValues(t types.Type, x, y Value) Value {
 		srt := sortOfBasic(u.Kind())
 		return e.fromTerm(e.tt.Eq(e.toTerm(x, srt), e.toTerm(y, srt)))
 	case *types.Pointer:
+		// a pointer to a natively held object (*regexp.Regexp, ...) is a *Native; nil is the zero Ptr
+		nx, xn := x.(*Native)
+		ny, yn := y.(*Native)
+		switch {
+		case xn && yn:
+			return nx == ny || (nx != nil && ny != nil && nx.v == ny.v)
+		case xn:
+			py, ok := y.(Ptr)
+			return nx == nil && ok && py.p == nil
+		case yn:
+			px, ok := x.(Ptr)
+			return ny == nil && ok && px.p == nil
+		}
 		return x.(Ptr).p == y.(Ptr).p
 	case *types.Interface:
 		xi, yi := x.(Iface), y.(Iface)
